@@ -359,10 +359,15 @@ package lang
 //@   fresh
 //@   modifies nothing
 //@   ensures result != nil
-//@ func (*Process).Fork [C11 C25]
+//@ func (*Process).Fork [C11 C25 C05]
 //@   scope functional
 //@   check none
 //@   requires p != nil
+// run mode of a block fork: the forking process's own run mode (set by try/trypipe/runmode for the
+// block) wins over the run mode of the enclosing function scope
+//@   at store Variables#2 assert imp(p.RunMode > runmode.Default, fork.RunMode == p.RunMode) && imp(p.RunMode <= runmode.Default && p.Scope.RunMode > runmode.Default, fork.RunMode == p.Scope.RunMode)
+//@   at store Variables#3 assert imp(p.RunMode > runmode.Default, fork.RunMode == p.RunMode) && imp(p.RunMode <= runmode.Default && p.Scope.RunMode > runmode.Default, fork.RunMode == p.Scope.RunMode)
+//@   at store Variables#5 assert imp(p.RunMode > runmode.Default, fork.RunMode == p.RunMode) && imp(p.RunMode <= runmode.Default && p.Scope.RunMode > runmode.Default, fork.RunMode == p.Scope.RunMode)
 //@   at call (*Config).Copy#* assert arg0 == p.Config && (bit(flags, F_FUNCTION) || bit(flags, F_NEW_CONFIG))
 //@   at store Config#1 assert bit(flags, F_FUNCTION) && fresh(fork.Config) && fork.Config != nil
 //@   at store Config#1 assert imp(fork.Process != p, fork.Config.global == ite(p.Config.global == nil, p.Config, p.Config.global))
